@@ -58,7 +58,9 @@ Inductive hop :=
 | HDGet (c : N) (chain : list (list tv)) (keys : list tv)
 | HDSet (c : N) (chain : list (list tv)) (keys : list tv) (v : tv)
 | HDSet0 (c : N) (chain : list (list tv))
-| HDDel (c : N) (chain : list (list tv)) (keys : list tv).
+| HDDel (c : N) (chain : list (list tv)) (keys : list tv)
+| HSnap          (* the harness copies the store ... *)
+| HRollback.     (* ... and later resets it to that copy, keeping every container handle *)
 
 Definition cres_eqb (a b : cres) : bool :=
   match a, b with
@@ -115,14 +117,19 @@ Section WithH.
           dict_chain_step H {| d_key := b; d_depth := n |} s (chain_b ch) DSet0 | _ => bad end)
     | HDDel c ch ks => withc c (fun d b => match d with DDict _ _ n =>
           dict_chain_step H {| d_key := b; d_depth := n |} s (chain_b ch) (DDelete (tbs ks)) | _ => bad end)
+    | HSnap | HRollback => (s, ROk)
     end.
 
-  Fixpoint hrun (cs : list cdesc) (s : kvstore) (ops : list (hop * cres)) : bool :=
+  (* the model has no per-handle state: an operation is a function of the store and the key,
+     whichever handle it goes through; snap is the store copy taken by the last HSnap *)
+  Fixpoint hrun (cs : list cdesc) (s snap : kvstore) (ops : list (hop * cres)) : bool :=
     match ops with
     | [] => true
+    | (HSnap, obs) :: r => cres_eqb ROk obs && hrun cs s s r
+    | (HRollback, obs) :: r => cres_eqb ROk obs && hrun cs snap snap r
     | (o, obs) :: r =>
         let '(s1, x) := hstep cs s o in
-        cres_eqb x obs && hrun cs s1 r
+        cres_eqb x obs && hrun cs s1 snap r
     end.
 End WithH.
 
@@ -149,7 +156,7 @@ Definition check (c : case) : bool :=
       | TInt _, None => false
       | _, _ => true
       end
-  | CHist cs ops => hrun (fun x => x) cs [] ops
+  | CHist cs ops => hrun (fun x => x) cs [] [] ops
   | CSib hashed pre root sibs tail htab early late deep =>
       let key (parts : list bytes) : bytes :=
         if hashed then b_build (tabH htab) (b_append (new_hash_key (unrle pre) (tbs root)) parts)
